@@ -25,10 +25,10 @@ def fIsIdent (e : List Char) : Bool := isIdentifier e
 inductive PFlag | b | v | a | t            -- broadcastable, variadic, anonymous, treepath
   deriving DecidableEq, Repr
 
-inductive PKind | named | fixed | symbolic   -- `_DimType`
+inductive AxKind | named | fixed | symbolic   -- `_DimType`
   deriving DecidableEq, Repr
 
-def PKind.same : PKind → PKind → Bool
+def AxKind.same : AxKind → AxKind → Bool
   | .named, .named => true
   | .fixed, .fixed => true
   | .symbolic, .symbolic => true
@@ -43,7 +43,7 @@ inductive PCond
   | eqEllipsis          -- `elem == "..."`
   | flag (f : PFlag)    -- `broadcastable` / `variadic` / `anonymous` / `treepath`
   | ivSet               -- `index_variadic is not None`
-  | kindIs (k : PKind)  -- `dim_type is _DimType.<k>`
+  | kindIs (k : AxKind)  -- `dim_type is _DimType.<k>`
   | lenZero             -- `len(elem) == 0`
   | firstIs (c : Char)  -- `first_char == "<c>"`, `first_char` having just been read from `elem[0]`
   | countEqOne          -- `elem.count("=") == 1`
@@ -65,7 +65,7 @@ inductive PStmt
   | ite (c : PCond) (t e : PStmt)
   | raise                      -- `raise ValueError(...)`
   | setFlag (f : PFlag) (val : Bool)
-  | setKind (k : PKind)
+  | setKind (k : AxKind)
   | dropFirst                  -- `elem = elem[1:]`
   | afterEq                    -- `_, elem = elem.split("=")`
   | tryInt (onErr onOk : PStmt) -- `try: elem = int(elem)  except ValueError: onErr  else: onOk`
@@ -84,7 +84,7 @@ structure PSt where
   v : Option Bool := none
   a : Option Bool := none
   t : Option Bool := none
-  kind : Option PKind := none
+  kind : Option AxKind := none
   iv : Option Nat
   idx : Nat
   made : Option PDim := none
